@@ -34,9 +34,9 @@ Definition rt_project (ev : rt_event) (o : option (sqlid * bool * bool)) : optio
   end.
 Definition rt_opt_eqb (a b : option (bool * bool * bool)) : bool :=
   match a, b with Some x, Some y => rt_obs_eqb x y | None, None => true | _, _ => false end.
-Definition rt_case (c : rt_params * list rt_event * list (option (bool * bool * bool))) : bool :=
-  match c with (P, evs, obsv) =>
-    rt_wf ([], []) evs &&
+Definition rt_case (c : rt_params * option bool * list rt_event * list (option (bool * bool * bool))) : bool :=
+  match c with (P, expect_wf, evs, obsv) =>
+    match expect_wf with Some b => Bool.eqb (rt_wf ([], []) evs) b | None => true end &&
     lst_eqb rt_opt_eqb (map (fun eo => rt_project (fst eo) (snd eo)) (combine evs (rt_run P ([], []) evs))) obsv end.
 """
 
@@ -77,6 +77,8 @@ class RtWorld:
         self.obs: list[str] = []
         self.log: list = []
         self.problems: list[dict] = []
+        self.mutated = False
+        self.expect_not_wf = False
 
     # ---- objects
     def token(self, obj) -> int:
@@ -101,6 +103,13 @@ class RtWorld:
         self.objs[g] = obj
         self.info[g] = (self.token(obj), model)
         return g, reused
+
+    def mutate(self, g: int, model: int):
+        """The caller changes the comparisons of a live SettingsCreator object (same object, same id(), other model)."""
+        self.objs[g].comparisons = T.creators_dict(model % N_MODELS, model // N_MODELS)["comparisons"]
+        self.info[g] = (self.info[g][0], model)
+        self.mutated = True
+        self.log.append(("mutate", g, model))
 
     def delete(self, g: int) -> int:
         addr = id(self.objs[g])
@@ -159,8 +168,9 @@ class RtWorld:
     def coq_case(self) -> str:
         p = self.params
         P = (f"{{| rp_flag_in_key := {coq_bool(p['rp_flag_in_key'])}; rp_configured_in_key := {coq_bool(p['rp_configured_in_key'])}; "
-             f"rp_liveness_called := {coq_bool(p['rp_liveness_called'])} |}}")
-        return (f"({P}, {coq_list(self.events, 'rt_event')}, "
+             f"rp_liveness_called := {coq_bool(p['rp_liveness_called'])}; rp_content_in_key := {coq_bool(p['rp_content_in_key'])} |}}")
+        wf = "(Some true)" if not self.mutated else ("(Some false)" if self.expect_not_wf else "None")
+        return (f"({P}, {wf}, {coq_list(self.events, 'rt_event')}, "
                 f"{coq_list(self.obs, '(option (bool * bool * bool))')})")
 
 
@@ -205,6 +215,20 @@ def scenario_id_reuse(ctx: Ctx, backend: str, params: dict, attempts: int):
     return w, reused_any
 
 
+def scenario_mutation(ctx: Ctx, backend: str, params: dict):
+    """One SettingsCreator object whose comparisons are replaced between cached calls."""
+    w = RtWorld(backend, params)
+    g, _ = w.new_object(0)
+    w.call("obj", g, True, False)
+    w.call("obj", g, True, False)
+    for m in ([1, 4] if ctx.quick else [1, 4, 2, 0]):
+        w.mutate(g, m)
+        w.call("obj", g, True, False)
+        w.call("obj", g, True, True)
+    w.expect_not_wf = True          # the same object carries different models: exactly what rt_wf excludes
+    return w
+
+
 def scenario_creator_dicts(ctx: Ctx, backend: str, params: dict):
     """Settings dicts holding creator objects that differ only in ComparisonCreator.configure(...)."""
     w = RtWorld(backend, params)
@@ -222,7 +246,11 @@ def scenario_random(ctx: Ctx, backend: str, params: dict, n: int):
     live: list[int] = []
     freed: list[int] = []
     for _ in range(n):
-        k = rng.choices(["obj", "new", "del", "dict", "cdict"], [5, 2, 2, 2, 3])[0]
+        k = rng.choices(["obj", "new", "del", "dict", "cdict", "mut"], [5, 2, 2, 2, 3, 2 if params["rp_content_in_key"] else 0])[0]
+        if k == "mut":
+            if live:
+                w.mutate(rng.choice(live), rng.randrange(2 * N_MODELS))
+            continue
         flag = rng.random() < 0.4
         uc = rng.random() < 0.75
         if k == "new" or (k == "obj" and not live):
@@ -252,7 +280,8 @@ def realtime_stage(ctx: Ctx, fixes: dict):
         params["rp_flag_in_key"] = bool(fixes["fx78"])
     txt = (RT_HEADER + f"\nEval vm_compute in (rt_params_ok {{| rp_flag_in_key := {coq_bool(params['rp_flag_in_key'])}; "
            f"rp_configured_in_key := {coq_bool(params['rp_configured_in_key'])}; "
-           f"rp_liveness_called := {coq_bool(params['rp_liveness_called'])} |}}).\n")
+           f"rp_liveness_called := {coq_bool(params['rp_liveness_called'])}; "
+           f"rp_content_in_key := {coq_bool(params['rp_content_in_key'])} |}}).\n")
     ok, out = ctx.coqc_text("C07_rt_T", txt)
     good = ok and "= true" in " ".join(out.split())
     ctx.obligation("T realtime: the extracted key ingredients are those C07_realtime_cache_transparent needs (rt_params_ok)", good,
@@ -266,6 +295,7 @@ def realtime_stage(ctx: Ctx, fixes: dict):
         worlds.append(("id_reuse", backend, w))
         ctx.cov[f"realtime_id_reuse_achieved_{backend}"] = reused
         worlds.append(("creator_dicts", backend, scenario_creator_dicts(ctx, backend, params)))
+        worlds.append(("mutation", backend, scenario_mutation(ctx, backend, params)))
         for _ in range((3 if backend == "duckdb" else 1) if ctx.quick else (24 if backend == "duckdb" else 8)):
             worlds.append(("random", backend, scenario_random(ctx, backend, params, ctx.rng.randint(6, 10 if ctx.quick else 18))))
     ctx.obligation("realtime: a SettingsCreator address was reused after collection in at least one scenario (else the id() scenario is vacuous)",
@@ -285,6 +315,8 @@ def realtime_stage(ctx: Ctx, fixes: dict):
             if reported > 3:
                 break
             feats = {"scenario": "realtime_cache", "settings_kind": pb["call"][0]}
+            if kind == "mutation" and not params["rp_content_in_key"]:
+                feats = {"scenario": "realtime_mutated_settings_object"}
             if not params["rp_flag_in_key"] and pb["difference"].get("why") == "columns":
                 feats = {"scenario": "realtime_flag_after_cached_call"}
             ctx.violation("compare_records served from the realtime SQL cache differs from the uncached answer for the same settings "
